@@ -94,26 +94,49 @@ ACCESSORS = ('get_parameter_names', 'parameters', 'outputs', 'get_id', 'get_dim_
              'get_output_names', 'get_submodels')
 
 
-def scribble(obj, names=ACCESSORS):
+def _scribble_value(r):
+    import numpy as _np
+    if isinstance(r, list):
+        for x in r:
+            _scribble_value(x) if isinstance(x, (list, dict, _np.ndarray)) else None
+        r.append('scribbled by the caller')
+        if len(r) > 1:
+            r[0] = 'scribbled too'
+        return 1
+    if isinstance(r, dict):
+        r.clear()
+        r['scribbled by the caller'] = None
+        return 1
+    if isinstance(r, tuple):
+        return sum(_scribble_value(x) for x in r)
+    if isinstance(r, _np.ndarray) and r.size and r.flags.writeable and r.dtype.kind in 'fiub':
+        r[...] = r.max() + 7 if r.dtype.kind != 'b' else ~r
+        return 1
+    return 0
+
+
+def scribble(obj, names=None):
     """Accessors are stuttering steps of every specification: they return information and leave the object alone.
-    Calls every name / ID accessor the object has and SCRIBBLES over whatever list (or dict) it returns, as a caller is
-    free to do; an accessor that hands out its internal list is exposed by the literal comparisons that follow."""
+    Calls every argument-free accessor the object has (get_*, parameters, outputs; or the given names) and SCRIBBLES over
+    whatever list, dict or array it returns, as a caller is free to do; an accessor that hands out internal state is
+    exposed by the literal comparisons that follow.  Returned model objects are left alone (handing out a sub-model is
+    the documented purpose of those getters)."""
+    import inspect
+    if names is None:
+        names = [a for a in dir(obj) if (a.startswith('get_') or a in ('parameters', 'outputs', 'administration'))
+                 and a not in ('get_log_posterior', 'get_predictive_model', 'get_dosing_regimen')]
     n = 0
     for a in names:
         f = getattr(obj, a, None)
-        if f is None:
+        if f is None or not callable(f):
             continue
         try:
+            sig = inspect.signature(f)
+            if any(p.default is inspect.Parameter.empty and p.kind in (p.POSITIONAL_ONLY, p.POSITIONAL_OR_KEYWORD)
+                   for p in sig.parameters.values()):
+                continue
             r = f()
         except Exception:
             continue
-        if isinstance(r, list):
-            r.append('scribbled by the caller')
-            if len(r) > 1:
-                r[0] = 'scribbled too'
-            n += 1
-        elif isinstance(r, dict):
-            r.clear()
-            r['scribbled by the caller'] = None
-            n += 1
+        n += _scribble_value(r)
     return n
